@@ -482,4 +482,225 @@ example : OptA.parse "/C/12345678\nDEUTDEFFXXX".toList = .ok ⟨some "C/12345678
 example : OptD.parse "//FW021000021\nBANK NAME\nCITY".toList = .ok ⟨some "/FW021000021".toList, ["BANK NAME".toList, "CITY".toList]⟩ := by decide
 example : OptA.parse "/\nDEUTDEFF".toList = .err := by decide
 
+/-! ### Customer / beneficiary fields: 50, 50C, 50L, 50G, 50H, 50K, 59, 59A, 51A — reproduce their input, never panic -/
+
+theorem acctStrict_value (l a : Text) (h : acctStrict l = .ok a) : l = '/' :: a := by
+  unfold acctStrict at h
+  split at h
+  · split at h
+    · cases h
+    · split at h
+      · cases h; rfl
+      · cases h
+  · cases h
+
+theorem acctStrict_no_panic (l : Text) : acctStrict l ≠ .panic := by
+  unfold acctStrict
+  repeat' split
+  all_goals simp
+
+theorem acctLenient_value (l a : Text) (h : acctLenient l = .ok (some a)) : l = '/' :: a := by
+  unfold acctLenient at h
+  split at h
+  · split at h
+    · cases h
+    · split at h
+      · split at h
+        · cases h; rfl
+        · cases h
+      · cases h
+  · cases h
+
+theorem acctLenient_no_panic (l : Text) : acctLenient l ≠ .panic := by
+  unfold acctLenient
+  repeat' split
+  all_goals simp
+
+theorem f50_reproduces (s : Text) (v : List Text) (h : F50NoOption.parse s = .ok v) : joinNl v = s := by
+  unfold F50NoOption.parse at h
+  simp only at h
+  split at h
+  · cases h
+  · split at h
+    · cases h; exact joinNl_splitNl s
+    · cases h
+
+theorem f50L_reproduces (s v : Text) (h : F50L.parse s = .ok v) : v = s := by
+  unfold F50L.parse at h
+  repeat (split at h; · cases h)
+  split at h
+  · cases h; rfl
+  · cases h
+
+theorem f50G_reproduces (s : Text) (v : AcctBic) (h : F50G.parse s = .ok v) : F50G.ser v = s := by
+  unfold F50G.parse at h
+  have hj := joinNl_splitNl s
+  split at h
+  · rename_i l0 l1 hsp
+    rw [hsp] at hj
+    split at h
+    · rename_i acc ha
+      split at h
+      · rename_i b hb
+        cases h
+        rw [← hj, acctStrict_value l0 acc ha, parseBic_value l1 b hb]
+        rfl
+      · cases h
+      · cases h
+    · cases h
+    · cases h
+  · cases h
+
+theorem f50H_reproduces (s : Text) (v : AcctLines) (h : F50H.parse s = .ok v) : AcctLines.ser v = s := by
+  unfold F50H.parse at h
+  have hj := joinNl_splitNl s
+  split at h
+  · rename_i l0 l1 rest hsp
+    rw [hsp] at hj
+    split at h
+    · rename_i acc ha
+      split at h
+      · cases h
+      · split at h
+        · cases h
+        · cases h
+          rw [← hj, acctStrict_value l0 acc ha]
+          rfl
+    · cases h
+    · cases h
+  · cases h
+
+theorem f50K_reproduces (s : Text) (v : AcctLines) (h : F50K.parse s = .ok v) : AcctLines.ser v = s := by
+  unfold F50K.parse at h
+  have hj := joinNl_splitNl s
+  split at h
+  · cases h
+  · rename_i l0 rest hsp
+    rw [hsp] at hj
+    split at h
+    · split at h
+      · rename_i acc ha
+        split at h
+        · rename_i ls hl
+          cases h
+          have := nameAddr_value _ _ _ hl
+          simp only [List.drop_zero] at this
+          subst this
+          rw [← hj, acctStrict_value l0 acc ha]
+          rfl
+        · cases h
+        · cases h
+      · cases h
+      · cases h
+    · split at h
+      · rename_i ls hl
+        cases h
+        have := nameAddr_value _ _ _ hl
+        simp only [List.drop_zero] at this
+        subst this
+        rw [← hj]
+        rfl
+      · cases h
+      · cases h
+
+theorem f59_reproduces (s : Text) (v : AcctLines) (h : F59.parse s = .ok v) : AcctLines.ser v = s := by
+  unfold F59.parse at h
+  have hj := joinNl_splitNl s
+  split at h
+  · cases h
+  · rename_i l0 rest hsp
+    rw [hsp] at hj
+    split at h
+    · rename_i acc ha
+      split at h
+      · rename_i ls hl
+        cases h
+        have := nameAddr_value _ _ _ hl
+        simp only [List.drop_zero] at this
+        subst this
+        rw [← hj, acctLenient_value l0 acc ha]
+        rfl
+      · cases h
+      · cases h
+    · split at h
+      · rename_i ls hl
+        cases h
+        have := nameAddr_value _ _ _ hl
+        simp only [List.drop_zero] at this
+        subst this
+        rw [← hj]
+        rfl
+      · cases h
+      · cases h
+    · cases h
+    · cases h
+
+theorem f59A_reproduces (s : Text) (v : OptAcctBic) (h : F59A.parse s = .ok v) : F59A.ser v = s := by
+  unfold F59A.parse at h
+  have hj := joinNl_splitNl s
+  split at h
+  · cases h
+  · rename_i l0 rest hsp
+    rw [hsp] at hj
+    split at h
+    · rename_i acc ha
+      split at h
+      · cases h
+      · rename_i b rest'
+        split at h
+        · rename_i bic hb
+          split at h
+          · cases h
+            rename_i hre
+            have hr' : rest' = [] := by simpa using hre
+            subst hr'
+            rw [← hj, acctLenient_value l0 acc ha, parseBic_value b bic hb]
+            simp [F59A.ser, joinNl]
+          · cases h
+        · cases h
+        · cases h
+    · split at h
+      · rename_i bic hb
+        split at h
+        · cases h
+          rename_i hre
+          have hr' : rest = [] := by simpa using hre
+          subst hr'
+          rw [← hj, parseBic_value l0 bic hb]
+          simp [F59A.ser, joinNl]
+        · cases h
+      · cases h
+      · cases h
+    · cases h
+    · cases h
+
+theorem customer_fields_no_panic (s : Text) :
+    F50NoOption.parse s ≠ .panic ∧ F50L.parse s ≠ .panic ∧ F50G.parse s ≠ .panic ∧ F50H.parse s ≠ .panic ∧
+    F50K.parse s ≠ .panic ∧ F59.parse s ≠ .panic ∧ F59A.parse s ≠ .panic := by
+  refine ⟨?_, ?_, ?_, ?_, ?_, ?_, ?_⟩
+  · unfold F50NoOption.parse; simp only; repeat' split
+    all_goals simp
+  · unfold F50L.parse; repeat' split
+    all_goals simp
+  · unfold F50G.parse
+    repeat' split
+    all_goals first | (rename_i hh; first | exact absurd hh (acctStrict_no_panic _) | exact absurd hh (parseBic_no_panic _)) | simp
+  · unfold F50H.parse
+    repeat' split
+    all_goals first | (rename_i hh; exact absurd hh (acctStrict_no_panic _)) | simp
+  · unfold F50K.parse
+    repeat' split
+    all_goals first | (rename_i hh; first | exact absurd hh (acctStrict_no_panic _) | exact absurd hh (nameAddr_no_panic _ _)) | simp
+  · unfold F59.parse
+    repeat' split
+    all_goals first | (rename_i hh; first | exact absurd hh (acctLenient_no_panic _) | exact absurd hh (nameAddr_no_panic _ _)) | simp
+  · unfold F59A.parse
+    repeat' split
+    all_goals first | (rename_i hh; first | exact absurd hh (acctLenient_no_panic _) | exact absurd hh (parseBic_no_panic _)) | simp
+
+/-- Non-vacuity -/
+example : F50K.parse "/12345678\nJOHN DOE\n1 MAIN ST".toList = .ok ⟨some "12345678".toList, ["JOHN DOE".toList, "1 MAIN ST".toList]⟩ := by decide
+example : F59A.parse "/12345678\nCHASUS33".toList = .ok ⟨some "12345678".toList, "CHASUS33".toList⟩ := by decide
+example : F50G.parse "12345678\nCHASUS33".toList = .err := by decide
+
 end SwiftMT.Props.C05
